@@ -275,6 +275,14 @@ class HTMLUnicodeInputStream(object):
             # We have no more data, bye-bye stream
             return False
 
+        while len(data) == 1 and (data == "\r" or "\uD800" <= data <= "\uDBFF"):
+            # A lone CR or lead surrogate must be seen together with the
+            # character that follows it, so get more data if there is any
+            more = self.dataStream.read(chunkSize)
+            if not more:
+                break
+            data += more
+
         if len(data) > 1:
             lastv = ord(data[-1])
             if lastv == 0x0D or 0xD800 <= lastv <= 0xDBFF:
